@@ -13,6 +13,12 @@
 // image, which must recover to a durable-step boundary of the import, hold
 // only headers of the file, and let the SAME import be re-run to completion.
 //
+// Start-up family: neutrino.NewChainService itself (the complete client's
+// start-up path, never started) runs on an empty directory with a database
+// that announces every write transaction; every boundary, every torn length
+// of the flat-file appends in between, and the restart on a crash image
+// (second generation) are crash points; the restart is NewChainService again.
+//
 // "Syncing resumes": on every crash image of both families the real block
 // manager is constructed on the reopened stores and handed one valid next
 // header, which must become the new block tip.
@@ -44,6 +50,9 @@ var (
 	childOps  = flag.Int("child-ops", 0, "child mode: number of ops")
 	childKill = flag.Int("child-kill", -1, "child mode: SIGKILL self at this crash point (-1: run to the end, parent kills)")
 	childDir  = flag.String("child-dir", "", "child mode: data directory")
+
+	childStartDir  = flag.String("child-start-dir", "", "start-up child mode: data directory to start on (NewChainService), SIGKILL self at real crash point -child-kill")
+	childStartScen = flag.Int("child-start-scen", 0, "start-up child mode: start-up scenario index (configuration)")
 
 	childImpDir    = flag.String("child-import-dir", "", "import child mode: prepared data directory (stores pre-filled, import files written)")
 	childImpPreset = flag.Int("child-import-preset", 0, "import child mode: chain parameter preset")
@@ -109,12 +118,19 @@ func main() {
 		importChild(r.Seed)
 		return
 	}
+	if *childStartDir != "" {
+		out := c08.RunStart(*childStartDir, c08.GenStartSpec(r.Seed, *childStartScen), *childKill, nil)
+		fmt.Fprintf(os.Stderr, "start child: not killed (%d real points, err=%v panic=%q)\n", out.RealPoints, out.Err, out.Panic)
+		os.Exit(4)
+	}
 	r.Rule("FAMILY 1: seeded scripts (appends of 1-220 block headers, filter-header batches shaped like writeCFHeadersMsg, single and multi-header rollbacks, reorganisation composites = per block [filter rollback, block rollback], first new header alone, rest as batch) on the real stores sharing one bbolt DB; for EVERY primitive EVERY crash point is taken: before/after each flat-file write, torn at 1 byte / record-1 / one record of a longer batch / record+1 / total-1, after each file truncate, after each index commit; each crash image is opened like a restarting client and must (1) open, (2) hold exactly the entries from before or after the primitive in each store, (3) have whole-record files agreeing with the tips, (4) have by-hash lookups agreeing and no stale entries, (5) keep filter tip <= block tip, (6) let the REAL block manager be constructed on the reopened stores and commit one valid next header handed to its headers handler (tip advances by exactly that header), (7) accept appends that land at the right heights. " +
 		"FAMILY 2: seeded clean header imports (PoW-valid generated chains under 3 parameter presets; start height 0 / effective tip+1 / inside agreeing content; length 5-400; write batch size 1, 2, 7, a divisor, the length; stores pre-filled to block tip 0..120 with the block store ahead of the filter store by 0,1,2,3,5) run through the REAL chainimport import on the real stores with the same crash hooks; EVERY crash point announced during Import is taken; each image must pass (1)-(5) with 'before/after' = the states around the interrupted store call of the importer (so each store holds the pre-import content plus a prefix of the file ending at a durable-step boundary), hold above the prior content only the file's headers, let the block manager be constructed on the crash state, and then RE-RUNNING the same import on the recovered stores must succeed and yield exactly the complete final state, from which (6) and (7) must hold; one image in 4 (seeded) additionally gets (6)-(7) on a second copy of the crash state itself. " +
-		"distinct = (family, primitive / store-call kind @ composite, crash-point class) plus one mark per import shape; non-trivial = every image (each is a distinct on-disk state)")
+		"START-UP FAMILY: the start-up itself is crashed on the complete client's real start-up path: neutrino.NewChainService (never started, no peers) runs on an EMPTY data directory with a database wrapper that announces a crash point before and after EVERY write transaction it is asked for, whoever makes it (filter database, header indexes, ban store; their number and order are recorded from the run, not assumed); every flat-file append seen between two such points additionally yields the torn-length images (1 byte / record-1 / ...); the completed start is a point too; the RESTART on each image is NewChainService again with the plain database, and the image must pass (1)-(7) with before = after = {genesis header, genesis filter header} read from the service's own stores, plus the public API: BestBlock = the highest block both chains reach, GetBlockHash(0) = genesis. Scenario 0 is fixed (regtest, defaults); the others draw chain (regtest, simnet, testnet3, mainnet, signet, testnet4), PersistToDisk and a filter-header assertion that agrees / is above the tip; SECOND GENERATION: the restart on a crash image (all images of scenario 0, seeded picks elsewhere) is itself crashed at every one of its own points; real SIGKILL in a child at every point of scenario 0 and two points of each other scenario. In family 1 every second image (and in family 2 the second look at the crash state) is also restarted through NewChainService instead of the two store constructors. " +
+		"distinct = (family, primitive / store-call kind @ composite / start @ state, crash-point class incl. the maker of the interrupted write transaction) plus one mark per import shape and start-up configuration; non-trivial = every image (each is a distinct on-disk state)")
 	r.Assume("process death model: completed write/truncate syscalls persist, bbolt's own commit is atomic (exercised by the random-instant kills, not enumerated); power-loss reordering is out of reach")
 	r.Assume("scripts obey the callers' contract: filter headers only for stored blocks; on rollback the filter store is rolled back before the block store")
 	r.Assume("import family: only imports that the importer accepts and completes without a crash are crashed (refusals and invalid files are C14's subject); a failed store write needs a fault, not a crash, and is C14's subject too")
+	r.Assume("start-up family: the store constructors open their flat files themselves, so a genesis append is observed as the growth of the file between two write-transaction boundaries (the torn images are that state with the file cut), and two file operations between the same two boundaries are not separated")
 	r.Assume("block manager restart: a never-connected btcd peer stands in for the sender of the one header; the block manager's clock is a fixed instant derived from the chain (tip + 1 h for scripts, the generated chains' reference clock for imports), never the wall clock")
 
 	root := scratch()
@@ -218,7 +234,186 @@ func main() {
 		}
 	}
 
+	// ---- Family 0b: the start-up itself, through the real start-up path -----
+	// NewChainService (never Start, no peers) runs on an empty directory with a
+	// database that announces every write transaction; every boundary it
+	// announces during ONE clean start (their number is whatever the client
+	// does, recorded, not assumed), every torn length of every flat-file
+	// append seen between two boundaries, and the completed start are crash
+	// points. The restart is NewChainService with the plain database. Second
+	// generation: the restart on a crash image is itself crashed at every one
+	// of ITS points.
+	nStartScen := r.Pick(6, 18)       // scenario 0 is fixed, the others seeded
+	startGen2PerScen := r.Pick(2, 40) // seeded picks of second-generation states per seeded scenario (scenario 0: all)
+	type startJob struct {
+		scen, gen int
+		spec      *c08.StartSpec
+		state     string // what the start runs on
+		src       string // directory holding that state ("" = empty directory)
+		from      string // for the witness: how the state came about
+		// parentOK (second generation) delivers whether the state passed its
+		// own restart check: a state that does not restart is the first
+		// generation's finding and is not enumerated again.
+		parentOK chan bool
+	}
+	var startMu sync.Mutex
+	startReal := map[int][]c08.StartPoint{} // real crash points of each scenario's first start
+	bmFor := func(sp *c08.StartSpec) *c08.BMOpts {
+		if sp.Params.PowLimitBits == 0x207fffff { // a next header can be mined on the spot
+			return bmOpts
+		}
+		return nil
+	}
+	runStartJob := func(j startJob) (subs []startJob) {
+		model, err := c08.GenesisModel(j.spec.Params)
+		if err != nil {
+			r.Inconclusive("genesis model: " + err.Error())
+			return nil
+		}
+		if j.parentOK != nil && !<-j.parentOK {
+			_ = os.RemoveAll(j.src)
+			r.Count("start_generation_2_states_skipped_parent_failed", 1)
+			return nil
+		}
+		dir := filepath.Join(root, fmt.Sprintf("c08-start-%d-%d-%s", j.scen, j.gen, filepath.Base(j.src)))
+		_ = os.RemoveAll(dir)
+		_ = os.MkdirAll(dir, 0o755)
+		if j.src != "" {
+			if err := c08.CopyDir(j.src, dir); err != nil {
+				r.Inconclusive("copy start state: " + err.Error())
+				return nil
+			}
+			_ = os.RemoveAll(j.src)
+		}
+		pick := rand.New(rand.NewSource(r.Seed*31_000_003 + int64(j.scen)*1009))
+		nimg := 0
+		var reals []c08.StartPoint
+		out := c08.RunStart(dir, j.spec, -1, func(sp *c08.StartPoint) {
+			ord := nimg
+			img := fmt.Sprintf("%s-img-%d", dir, ord)
+			nimg++
+			if err := c08.CopyDir(dir, img); err == nil {
+				err = sp.ApplyCut(img)
+			}
+			if err != nil {
+				r.Inconclusive("image copy: " + err.Error())
+				return
+			}
+			if sp.Real >= 0 {
+				reals = append(reals, *sp)
+			}
+			var verdict chan bool
+			if j.gen == 1 {
+				// Seeded scenarios: each point is drawn with a probability that
+				// yields about startGen2PerScen states per scenario.
+				if j.scen == 0 || pick.Intn(16) < startGen2PerScen {
+					sub := img + "-gen2"
+					if err := c08.CopyDir(img, sub); err == nil {
+						verdict = make(chan bool, 1)
+						subs = append(subs, startJob{scen: j.scen, gen: 2, spec: j.spec, state: "crashed-first-start", src: sub,
+							from: "first start that died at " + sp.Name, parentOK: verdict})
+					}
+				}
+			}
+			pt, seed := sp.Point, r.Seed*5_000_011+int64(j.scen)*100_003+int64(j.gen)*10_007+int64(ord)
+			ctx := fmt.Sprintf("crash at %s during a start (NewChainService, %v) on %s", pt.Name, j.spec, j.state)
+			if j.from != "" {
+				ctx += " (the state left by a " + j.from + ")"
+			}
+			checks <- func() {
+				fs, inc := (&c08.ImageCheck{Dir: img, Params: j.spec.Params, Before: model, After: model,
+					Rng: rand.New(rand.NewSource(seed)), Sig: c08.StartSig(j.state, pt), Ctx: ctx,
+					BM: bmFor(j.spec), Stats: bmStats, Service: j.spec}).Run()
+				_ = os.RemoveAll(img)
+				if verdict != nil {
+					verdict <- len(fs) == 0 && inc == ""
+				}
+				if inc != "" {
+					r.Inconclusive(inc)
+				}
+				r.Case("start@"+j.state+"|"+pt.Class, true)
+				r.Count("crash_images_checked", 1)
+				r.Count("start_images_checked", 1)
+				r.Count(fmt.Sprintf("start_images_generation_%d", j.gen), 1)
+				if sp.Real < 0 {
+					r.Count("start_images_torn_append", 1)
+				}
+				for _, fd := range fs {
+					r.Violation(fd.Sig, fd.What, map[string]any{"family": "start-up through NewChainService", "scenario": j.scen, "config": j.spec.String(),
+						"state": j.state, "state_from": j.from, "point": pt.Name, "write_tx_index": pt.Op,
+						"reproduce": fmt.Sprintf("VERIF_SEED=%d ./check C08 %s  (start-up scenario %d)", r.Seed, r.Tier, j.scen)})
+				}
+			}
+		})
+		_ = os.RemoveAll(dir)
+		switch {
+		case out.TimedOut:
+			r.Inconclusive("watchdog: an uninterrupted start-up did not return in 90 s")
+		case out.Panic != "":
+			r.Violation(evid.Sig("c08/operation-panics", "start@"+j.state), "NewChainService panicked without any fault: "+out.Panic, map[string]any{"config": j.spec.String()})
+		case out.Err != nil:
+			r.Violation(evid.Sig("c08/operation-failed", "start@"+j.state), "NewChainService failed without any fault: "+out.Err.Error(), map[string]any{"config": j.spec.String()})
+		}
+		r.Count("start_runs_enumerated", 1)
+		r.Count("start_write_txs_observed", int64(len(out.WriteTxs)))
+		r.Count("start_real_points", int64(out.RealPoints))
+		r.Count("start_torn_points", int64(out.TornPoints))
+		if j.gen == 1 {
+			startMu.Lock()
+			startReal[j.scen] = reals
+			startMu.Unlock()
+			r.Mark("start-shape|" + j.spec.String())
+			if j.scen == 0 {
+				r.Set("start_fixed_scenario_write_txs", out.WriteTxs)
+				r.Sample(map[string]any{"start_scenario": 0, "config": j.spec.String(), "write_txs": out.WriteTxs,
+					"real_points": out.RealPoints, "torn_points": out.TornPoints})
+			}
+		}
+		return subs
+	}
+	wg.Add(1)
+	go func() {
+		defer wg.Done()
+		gen := make([]startJob, 0, nStartScen)
+		for i := 0; i < nStartScen; i++ {
+			gen = append(gen, startJob{scen: i, gen: 1, spec: c08.GenStartSpec(r.Seed, i), state: "empty-directory"})
+		}
+		for len(gen) > 0 {
+			var next []startJob
+			var nmu sync.Mutex
+			var pwg sync.WaitGroup
+			q := make(chan startJob)
+			for w := 0; w < min(workers, 4); w++ {
+				pwg.Add(1)
+				go func() {
+					defer pwg.Done()
+					for j := range q {
+						subs := runStartJob(j)
+						nmu.Lock()
+						next = append(next, subs...)
+						nmu.Unlock()
+					}
+				}()
+			}
+			for _, j := range gen {
+				q <- j
+			}
+			close(q)
+			pwg.Wait()
+			gen = next
+		}
+	}()
+
 	// ---- Family 1: scripts of store primitives ----------------------------
+	// The restart on a crash image goes through the complete client's start-up
+	// (NewChainService) for every second image (seeded), and through the two
+	// store constructors called directly for the others.
+	scriptRestart := func(k int64) *c08.StartSpec {
+		if k&1 == 0 {
+			return c08.PlainStartSpec(params())
+		}
+		return nil
+	}
 	jobs := make(chan int)
 	for w := 0; w < min(workers, 6); w++ {
 		wg.Add(1)
@@ -274,7 +469,7 @@ func main() {
 						checks <- func() {
 							fs, inc := (&c08.ImageCheck{Dir: imgDir, Params: params(), Before: before, After: after,
 								Rng: rand.New(rand.NewSource(rngSeed)),
-								Sig: c08.ScriptSig(op, p), Ctx: c08.ScriptCtx(op, p), BM: bmOpts, Stats: bmStats}).Run()
+								Sig: c08.ScriptSig(op, p), Ctx: c08.ScriptCtx(op, p), BM: bmOpts, Stats: bmStats, Service: scriptRestart(rngSeed)}).Run()
 							_ = os.RemoveAll(imgDir)
 							if inc != "" {
 								r.Inconclusive(inc)
@@ -513,7 +708,7 @@ func main() {
 				}
 				rec := pointsByScript[kc.seed][kc.k]
 				fs, inc := (&c08.ImageCheck{Dir: dir, Params: params(), Before: rec.before, After: rec.after, Rng: rng,
-					Sig: c08.ScriptSig(rec.op, rec.pt), Ctx: c08.ScriptCtx(rec.op, rec.pt), BM: bmOpts, Stats: bmStats}).Run()
+					Sig: c08.ScriptSig(rec.op, rec.pt), Ctx: c08.ScriptCtx(rec.op, rec.pt), BM: bmOpts, Stats: bmStats, Service: scriptRestart(int64(kc.k))}).Run()
 				if inc != "" {
 					r.Inconclusive(inc)
 				}
@@ -531,6 +726,79 @@ func main() {
 	}
 	close(kjobs)
 	wg.Wait()
+
+	// Real SIGKILL inside a first start: the child runs NewChainService on an
+	// empty directory and kills itself at real crash point k; the parent
+	// restarts (NewChainService) on what is left. Scenario 0: every point; the
+	// seeded scenarios: two points each.
+	{
+		type skcase struct{ scen, k int }
+		var skcases []skcase
+		skrng := rand.New(rand.NewSource(r.Seed ^ 0x73746b6c))
+		for scen := 0; scen < nStartScen; scen++ {
+			n := len(startReal[scen])
+			switch {
+			case n == 0:
+			case scen == 0 || r.Tier != "quick" || n < 3:
+				for k := 0; k < n; k++ {
+					skcases = append(skcases, skcase{scen, k})
+				}
+			default:
+				a := skrng.Intn(n)
+				skcases = append(skcases, skcase{scen, a}, skcase{scen, (a + 1 + skrng.Intn(n-1)) % n})
+			}
+		}
+		skjobs := make(chan skcase)
+		for w := 0; w < workers; w++ {
+			wg.Add(1)
+			go func() {
+				defer wg.Done()
+				for kc := range skjobs {
+					spec := c08.GenStartSpec(r.Seed, kc.scen)
+					model, err := c08.GenesisModel(spec.Params)
+					if err != nil {
+						r.Inconclusive("genesis model: " + err.Error())
+						continue
+					}
+					dir := filepath.Join(root, fmt.Sprintf("c08-startkill-%d-%d", kc.scen, kc.k))
+					_ = os.RemoveAll(dir)
+					_ = os.MkdirAll(dir, 0o755)
+					cmd := exec.Command(exe, "-tier", r.Tier, "-seed", fmt.Sprint(r.Seed), "-child-start-dir", dir,
+						"-child-start-scen", fmt.Sprint(kc.scen), "-child-kill", fmt.Sprint(kc.k))
+					var errb bytes.Buffer
+					cmd.Stderr = &errb
+					err = cmd.Run()
+					ws, _ := cmd.ProcessState.Sys().(syscall.WaitStatus)
+					if err == nil || !ws.Signaled() || ws.Signal() != syscall.SIGKILL {
+						r.Inconclusive("start kill child did not die by SIGKILL")
+						fmt.Fprintf(os.Stderr, "start kill child %v: err=%v stderr=%s\n", kc, err, errb.String())
+						_ = os.RemoveAll(dir)
+						continue
+					}
+					pt := startReal[kc.scen][kc.k].Point
+					ctx := fmt.Sprintf("crash at %s during a start (NewChainService, %v) on empty-directory", pt.Name, spec)
+					fs, inc := (&c08.ImageCheck{Dir: dir, Params: spec.Params, Before: model, After: model,
+						Rng: rand.New(rand.NewSource(r.Seed*6_000_011 + int64(kc.scen)*1009 + int64(kc.k))),
+						Sig: c08.StartSig("empty-directory", pt), Ctx: ctx, BM: bmFor(spec), Stats: bmStats, Service: spec}).Run()
+					if inc != "" {
+						r.Inconclusive(inc)
+					}
+					r.Case("sigkill|start@empty-directory|"+pt.Class, true)
+					r.Count("start_sigkill_cases", 1)
+					for _, fd := range fs {
+						r.Violation(fd.Sig, "[real SIGKILL] "+fd.What, map[string]any{"family": "start-up through NewChainService", "scenario": kc.scen,
+							"config": spec.String(), "kill_point": kc.k, "point": pt.Name})
+					}
+					_ = os.RemoveAll(dir)
+				}
+			}()
+		}
+		for _, kc := range skcases {
+			skjobs <- kc
+		}
+		close(skjobs)
+		wg.Wait()
+	}
 
 	phase("2_script_sigkills_done")
 
@@ -682,6 +950,7 @@ func main() {
 		r.Count("bm_next_header_handled", h)
 		r.Count("bm_tip_advanced", t)
 		r.Count("bm_import_crash_state_restarts", ist.CrashStateBM)
+		r.Count("restarts_through_NewChainService", bmStats.Services())
 		r.Set("bm_sample_one_in", map[string]int{"script_images_one_header_restart": 1, "import_images_construct_on_crash_state": 1,
 			"import_images_one_header_restart_after_reimport": 1, "import_images_one_header_restart_on_crash_state": bmCrashStateOneIn})
 	}
